@@ -61,3 +61,20 @@ def stepup(ks):
         new.append(k)
         a = new
     return a
+
+
+def case_schur_cohn_lemma(h, p, cplx):
+    """lemma over fresh symbols: reflection coefficients of modulus < 1 => step-up polynomial has no root with |z| >= 1"""
+    ks = [(h.cplx("k%d" % i) if cplx else h.real("k%d" % i)) for i in range(p)]
+    for k in ks:
+        h.assume(abs2(k) < 1, "|k|<1")
+    a = stepup(ks)
+    if h.is_sym():
+        z = h.cplx('z')
+        acc = 1
+        for i in range(p):
+            acc = acc * z + a[i]
+        h.claim_true("no-root-with-|z|>=1", ~((acc == 0) & (abs2(z) >= 1)))
+    else:
+        roots = np.roots([1] + [complex(v) for v in a])
+        h.claim_true("no-root-with-|z|>=1", bool(np.all(np.abs(roots) < 1)))
